@@ -57,6 +57,19 @@ def run(tier: str) -> int:
     for k, v in probes.call_probes() + probes.range_probes()[:12] + probes.lifetime_probes() + probes.call_matrix()[::6]:
         for vec in vecs[:2]:
             items.append(("monitor", dict(name=f"probe:{k}", sources=v, tier=tier, shadow=True, opts=vec)))
+    # several library modules that keep module-level state in registers
+    from . import c13
+
+    multi = [("multi:two_libs", c13.FIXED_MULTI), ("multi:two_counters", {
+        "": HDR + "from library import liba\nfrom library import libb\n\nwhile True:\n    yield_()\n    liba.tick()\n    libb.tock()\n    liba.tick()\n    libb.tock()\n",
+        "liba": HDR + "\ncount = 0\n\ndef tick():\n    global count\n    count = count + 1\n    d0.Setting = count\n",
+        "libb": HDR + "\ntotal = 100\n\ndef tock():\n    global total\n    total = total - 1\n    d1.Setting = total\n"})]
+    for i in range(6 if tier == "thorough" else 2):
+        srcs_, _f = c13.gen_multi(harness.seed() * 7001 + i + 1)
+        multi.append((f"multi:{i}", srcs_))
+    for name, srcs in multi:
+        for vec in vecs[:2]:
+            items.append(("monitor", dict(name=name, sources=srcs, tier=tier, shadow=True, opts=vec)))
     press = []
     for k in (6, 10, 13, 15, 16, 17, 18, 20, 24):
         for inf in (False, True):
